@@ -28,6 +28,28 @@
 #undef private
 using namespace AIToolbox;
 
+// A user-defined POMDP model: probability queries only (IsModel but not IsModelEigen), wrapping dense tables.
+// Every generic (non-Eigen) branch of the solvers is reached only through such a model.
+// (A template over the wrapped model so that the library's unqualified calls such as
+// computeImmediateRewards(m) in FastInformedBound.hpp are still found by argument-dependent lookup.)
+template <typename M>
+struct GenericView {
+    const M & m_;
+    size_t getS() const { return m_.getS(); }
+    size_t getA() const { return m_.getA(); }
+    size_t getO() const { return m_.getO(); }
+    double getDiscount() const { return m_.getDiscount(); }
+    bool isTerminal(size_t s) const { return m_.isTerminal(s); }
+    double getTransitionProbability(size_t s, size_t a, size_t s1) const { return m_.getTransitionProbability(s, a, s1); }
+    double getExpectedReward(size_t s, size_t a, size_t s1) const { return m_.getExpectedReward(s, a, s1); }
+    double getObservationProbability(size_t s1, size_t a, size_t o) const { return m_.getObservationProbability(s1, a, o); }
+    std::tuple<size_t, double> sampleSR(size_t s, size_t a) const { return m_.sampleSR(s, a); }
+    std::tuple<size_t, size_t, double> sampleSOR(size_t s, size_t a) const { return m_.sampleSOR(s, a); }
+};
+using GenericPOMDP = GenericView<POMDP::Model<MDP::Model>>;
+static_assert(POMDP::IsModel<GenericPOMDP>);
+static_assert(!POMDP::IsModelEigen<GenericPOMDP>);
+
 struct Tables { size_t S, A, O; double g; DumbMatrix3D T, R, Ob; };
 
 static Tables readPomdp(vio::Cursor & c) {
@@ -132,7 +154,33 @@ int main(int argc, char ** argv) {
             Tables t = readPomdp(c); auto bs = readBeliefs(c, t.S);
             POMDP::Model<MDP::Model> dense(t.O, t.Ob, t.S, t.A, t.T, t.R, t.g);
             if (repr == "dense") direct(dense, t, hB, hF, hQ, hP, nPers, minRew, bs, true, o);
+            else if (repr == "generic") { GenericPOMDP gm{dense}; direct(gm, t, hB, hF, hQ, hP, nPers, minRew, bs, true, o); }
             else { POMDP::SparseModel<MDP::SparseModel> sp(dense); direct(sp, t, hB, hF, hQ, hP, nPers, minRew, bs, false, o); }
+        } else if (kind == "perseus_d1") {   // perseus_d1 <pomdp with discount 1>: PERSEUS must reject it
+            Tables t = readPomdp(c);
+            POMDP::Model<MDP::Model> dense(t.O, t.Ob, t.S, t.A, t.T, t.R, t.g);
+            POMDP::PERSEUS s(2, 2, 0.0);
+            try { auto [var, vf] = s(dense, -1.0); o << "RETURNED" << var << vf.size(); dumpVList(o, vf[0]); }
+            catch (const std::invalid_argument &) { o << "THROW" << "invalid_argument"; }
+        } else if (kind == "bpa") {      // bpa hF <pomdp> <b> <np> <point beliefs>: bestPromisingAction per-action values
+            unsigned hF = c.nextSize(); Tables t = readPomdp(c);
+            POMDP::Belief b(t.S); for (size_t s = 0; s < t.S; ++s) b[s] = c.nextDouble();
+            auto pts = readBeliefs(c, t.S);
+            POMDP::Model<MDP::Model> dense(t.O, t.Ob, t.S, t.A, t.T, t.R, t.g);
+            const auto & ir = dense.getRewardFunction();
+            POMDP::FastInformedBound fib(hF, 0.0);
+            MDP::QFunction ubQ = std::get<1>(fib(dense));
+            // sound belief points: one-step look-ahead values over the corner planes only
+            POMDP::UpperBoundValueFunction ubV, none;
+            for (const auto & p : pts) {
+                bool corner = false; for (size_t s = 0; s < t.S; ++s) if (p[s] == 1.0) corner = true;
+                if (corner) continue;
+                auto [a, v] = POMDP::bestPromisingAction<false>(dense, ir, p, ubQ, none);
+                (void) a; ubV.first.push_back(p); ubV.second.push_back(v);
+            }
+            dumpMat(o, ubQ); dumpUbV(o, ubV);
+            { Vector vals; auto [a, v] = POMDP::bestPromisingAction<false>(dense, ir, b, ubQ, ubV, &vals); o << "saw" << a << v; dumpVec(o, vals); }
+            { Vector vals; auto [a, v] = POMDP::bestPromisingAction<true>(dense, ir, b, ubQ, ubV, &vals); o << "lp" << a << v; dumpVec(o, vals); }
         } else if (kind == "conv") {     // conv <tol> <pomdp> <nb> <beliefs>
             double tol = c.nextDouble(); Tables t = readPomdp(c);
             POMDP::Model<MDP::Model> dense(t.O, t.Ob, t.S, t.A, t.T, t.R, t.g);
